@@ -3,7 +3,7 @@
 From Coq Require Import ZArith Bool.
 From PV.Lib Require Import Bits.
 From PV.Gen Require Import DigiId.
-From PV.Props Require Import C05Proofs.
+From PV.Props Require Import C05Proofs C05Inj.
 Local Open Scope Z_scope.
 
 (* decode (encode a) = a mod (field width): round trip for in-range values, truncation of wider values,
@@ -61,6 +61,54 @@ Theorem C05_cgem_decode_encode_bool_flag : forall l sh st b,
   cgem_id_to_is_x_strip w = b /\ only_tag 96 w /\ 0 <= w < 2^32.
 Proof. exact cgem_decode_encode_b. Qed.
 Print Assumptions C05_cgem_decode_encode_bool_flag.
+
+(* "without loss", stated directly: in-range field tuples with equal identifiers are equal tuples (corollaries of the round trips),
+   and identifiers of different detectors / of the two TOF families never coincide, whatever the arguments *)
+Theorem C05_mdc_encode_injective : forall wire layer wt wire' layer' wt',
+  0 <= wire < 512 -> 0 <= layer < 64 -> 0 <= wt < 2 -> 0 <= wire' < 512 -> 0 <= layer' < 64 -> 0 <= wt' < 2 ->
+  get_mdc_digi_id wire layer wt = get_mdc_digi_id wire' layer' wt' -> wire = wire' /\ layer = layer' /\ wt = wt'.
+Proof. exact mdc_encode_injective. Qed.
+Print Assumptions C05_mdc_encode_injective.
+
+Theorem C05_emc_encode_injective : forall m t p m' t' p',
+  0 <= m < 16 -> 0 <= t < 64 -> 0 <= p < 256 -> 0 <= m' < 16 -> 0 <= t' < 64 -> 0 <= p' < 256 ->
+  get_emc_digi_id m t p = get_emc_digi_id m' t' p' -> m = m' /\ t = t' /\ p = p'.
+Proof. exact emc_encode_injective. Qed.
+Print Assumptions C05_emc_encode_injective.
+
+Theorem C05_muc_encode_injective : forall p s l c p' s' l' c',
+  0 <= p < 16 -> 0 <= s < 16 -> 0 <= l < 16 -> 0 <= c < 256 -> 0 <= p' < 16 -> 0 <= s' < 16 -> 0 <= l' < 16 -> 0 <= c' < 256 ->
+  get_muc_digi_id p s l c = get_muc_digi_id p' s' l' c' -> p = p' /\ s = s' /\ l = l' /\ c = c'.
+Proof. exact muc_encode_injective. Qed.
+Print Assumptions C05_muc_encode_injective.
+
+Theorem C05_cgem_encode_injective : forall l sh st f l' sh' st' f',
+  0 <= l < 8 -> 0 <= sh < 8 -> 0 <= st < 4096 -> 0 <= f < 2 -> 0 <= l' < 8 -> 0 <= sh' < 8 -> 0 <= st' < 4096 -> 0 <= f' < 2 ->
+  get_cgem_digi_id l sh st f = get_cgem_digi_id l' sh' st' f' -> l = l' /\ sh = sh' /\ st = st' /\ f = f'.
+Proof. exact cgem_encode_injective. Qed.
+Print Assumptions C05_cgem_encode_injective.
+
+Theorem C05_tof_scint_encode_injective : forall part l p e part' l' p' e',
+  0 <= part < 3 -> 0 <= l < 2 -> 0 <= p < 128 -> 0 <= e < 2 -> 0 <= part' < 3 -> 0 <= l' < 2 -> 0 <= p' < 128 -> 0 <= e' < 2 ->
+  get_tof_digi_id part l p e = get_tof_digi_id part' l' p' e' -> part = part' /\ l = l' /\ p = p' /\ e = e'.
+Proof. exact tof_scint_encode_injective. Qed.
+Print Assumptions C05_tof_scint_encode_injective.
+
+Theorem C05_tof_mrpc_encode_injective : forall part l p e part' l' p' e',
+  3 <= part < 5 -> 0 <= l < 64 -> 0 <= p < 16 -> 0 <= e < 2 -> 3 <= part' < 5 -> 0 <= l' < 64 -> 0 <= p' < 16 -> 0 <= e' < 2 ->
+  get_tof_digi_id part l p e = get_tof_digi_id part' l' p' e' -> part = part' /\ l = l' /\ p = p' /\ e = e'.
+Proof. exact tof_mrpc_encode_injective. Qed.
+Print Assumptions C05_tof_mrpc_encode_injective.
+
+Theorem C05_tof_scint_mrpc_disjoint : forall part l p e part' l' p' e', 0 <= part < 3 -> 3 <= part' ->
+  get_tof_digi_id part l p e <> get_tof_digi_id part' l' p' e'.
+Proof. exact tof_scint_mrpc_disjoint. Qed.
+Print Assumptions C05_tof_scint_mrpc_disjoint.
+
+Theorem C05_detectors_never_collide : forall t t' w w', only_tag t w -> only_tag t' w' ->
+  List.In t (16 :: 32 :: 48 :: 64 :: 96 :: nil) -> List.In t' (16 :: 32 :: 48 :: 64 :: 96 :: nil) -> t <> t' -> w <> w'.
+Proof. exact only_tag_distinct. Qed.
+Print Assumptions C05_detectors_never_collide.
 
 (* every 32-bit word carrying the detector's tag: re-composing the decoded fields reproduces all defined bits *)
 Theorem C05_mdc_recompose : forall w, 0 <= w < 2^32 -> check_mdc_id w = true ->
